@@ -303,6 +303,7 @@ def run(ctx):
     from . import c01
     c01.check_get_ops(Renumber(ctx, {7: 4, 8: 4}))
     sched.ob_never_suspends(ctx, 5, "overbook", "overbook")
+    sched.ob_no_mutation_while_iterating(ctx, 4, "overbook", "overbook")      # the queue is walked front to back: taking an element out during the walk skips the next one
     sched.fixture_suspend_present(ctx, 5)
     # the scheduler returns exactly what make_assignments produced
     rets = sched.suspension_returns(P, f)
